@@ -32,6 +32,18 @@ impl Rng {
         }
         lo + self.below(hi - lo + 1)
     }
+    /// Any legal picture dimension (1..=65535): the middle of the range, odd values, and the
+    /// neighbourhood of every byte / nibble boundary - not only the sizes cameras produce.
+    pub fn any_dim(&mut self) -> u32 {
+        match self.below(6) {
+            0 => self.range(1, 65_535) as u32,
+            1 => self.range(1, 4_096) as u32,
+            2 => (1u32 << self.range(1, 15)) + self.range(0, 2) as u32 - 1,
+            3 => (self.range(1, 255) as u32) << 8 | *self.pick(&[0u32, 1, 0x7f, 0x80, 0xfe, 0xff]),
+            4 => *self.pick(&[255u32, 256, 257, 1023, 1025, 4095, 4097, 32_767, 32_768, 32_769, 65_534, 0x1234, 0xabcd, 1921, 1081, 853, 2]),
+            _ => self.range(17, 2_000) as u32 | 1,
+        }
+    }
     /// true with probability num/den
     pub fn chance(&mut self, num: u64, den: u64) -> bool {
         self.below(den) < num
